@@ -68,25 +68,6 @@ theorem C09_algorithm_precedence (arg cfg : Option String) (dflt : String) :
       have : t = "" := by simpa [truthy] using h1
       simpa [orElse, this] using e1
 
-/-- What the property calls "demanded" is what the code resolves, given the table's defaults. -/
-theorem demanded_eq_resolve (arg cfg : Option Bool) : demanded arg cfg = resolve arg cfg false := by
-  cases arg <;> cases cfg <;> rfl
-
-theorem demandedAlg_all (arg cfg : Option String) (dflt : String) :
-    (demandedAlg arg cfg).all (· == orElse arg (orElse cfg dflt)) = true := by
-  unfold demandedAlg
-  cases arg with
-  | none =>
-    cases cfg with
-    | none => simp [truthy]
-    | some t => by_cases ht : t = "" <;> simp [truthy, orElse, ht]
-  | some s =>
-    by_cases hs : s = ""
-    · cases cfg with
-      | none => simp [truthy, hs]
-      | some t => by_cases ht : t = "" <;> simp [truthy, orElse, hs, ht]
-    · simp [truthy, orElse, hs]
-
 /-! ### scoping: what every created Response looks like -/
 
 /-- Exactly one assertion is issued. -/
@@ -208,11 +189,6 @@ theorem C09_refusal {d : Defaults} {cfg : Cfg} {a : Args W} {e : Refusal} (h : c
 
 /-! ### the NameID format -/
 
-/-- The side condition that excludes the recorded defect: when the request names no format, the
-    IdentDB holds no identifier `find_nameid` would return for this user and qualifier. -/
-def noStoredReuse (a : Args W) : Bool :=
-  (requestedFormat a).isSome || (findNameid a).isEmpty
-
 /-- FULL statement: whenever the caller does not hand in a NameID, the issued one has the requested
     format, else the policy-configured one. -/
 def C09_nameid_format_full : Prop :=
@@ -249,6 +225,32 @@ theorem C09_nameid_format_partial {d : Defaults} {cfg : Cfg} {a : Args W} {r : I
         right
         rw [hfmt, chosenFormat_policy hreq]
         rfl
+
+/-- FIRST SENTENCE, in one statement: every Response `create` produces names the provider as issuer
+    (Response and its single assertion), carries exactly one AudienceRestriction with the requester
+    as only audience, exactly one confirmation — bearer, Recipient = consumer URL, InResponseTo =
+    request ID, NotOnOrAfter = issue time + policy lifetime for the requester —, the same expiry on
+    the Conditions (which start at the issue time), signatures on Response / assertion exactly as
+    argument > configuration > default resolve, with the algorithms argument > configuration >
+    default, and (when no stored identifier is reused for a request that names no format, see
+    `C09_nameid_format_counterexample`) the requested or policy-configured NameID format. -/
+theorem C09_scoping {d : Defaults} {cfg : Cfg} {a : Args W} {r : Issued W} (h : create d cfg a = .ok r) :
+    r.issuer = some cfg.entityId ∧ r.issueInstant = a.now ∧ r.inResponseTo = some a.inResponseTo ∧
+    r.sig = (if resolve a.signResponse cfg.signResponse d.signResponse then some (sigInfo d cfg a) else none) ∧
+    ∃ x, r.assertions = [x] ∧
+      x.issuer = some cfg.entityId ∧
+      x.audiences = [[a.spEntityId]] ∧
+      x.confs = [{ method := .bearer, recipient := some a.destination, irt := some a.inResponseTo,
+                   nb := none, nooa := some (a.now + lifetimeOf d cfg a) }] ∧
+      x.condNb = some a.now ∧ x.condNooa = some (a.now + lifetimeOf d cfg a) ∧
+      x.sig = (if resolve a.signAssertion cfg.signAssertion d.signAssertion then some (sigInfo d cfg a) else none) ∧
+      (noStoredReuse a = true → formatOk d cfg a x.nameId = true) := by
+  obtain ⟨x, hx⟩ := C09_one_assertion h
+  have hmem : x ∈ r.assertions := by rw [hx]; exact List.mem_singleton.mpr rfl
+  refine ⟨(C09_issuer h).1, (C09_validity h).1, (C09_confirmation h).1, (C09_signatures h).1, x, hx,
+    (C09_issuer h).2 x hmem, C09_audience h x hmem, (C09_confirmation h).2.2 x hmem,
+    ((C09_validity h).2 x hmem).1, ((C09_validity h).2 x hmem).2, (C09_signatures h).2 x hmem,
+    fun hside => C09_nameid_format_partial h hside x hmem⟩
 
 /-- … and fails without it: request without NameIDPolicy, policy format persistent, the user already
     holds a transient identifier for this SP (from an earlier request that asked for one): the stored
@@ -294,7 +296,7 @@ theorem C09_core_meets_spec (d : Defaults) (cfg : Cfg) (a : Args W)
       cases resolve a.signAssertion cfg.signAssertion false
       · rfl
       · simp [sigAsDemanded, sigInfo, demandedAlg_all]
-    simp only [specCore, responseOf, assertionOf, assertionCoreOk, signaturesOk, confOk, lifetimeFor_eq, hsigR, hsigA,
+    simp only [specCore, responseOf, assertionOf, assertionCoreOk, signaturesOk, confsOk, confOk, lifetimeFor_eq, hsigR, hsigA,
       List.all_cons, List.all_nil, List.length_singleton]
     simp
 
